@@ -312,7 +312,7 @@ func c09Run(t *testing.T, sc Scenario, res *Result) {
 		// a fail file whose replay falsifies the property once (state dependent): the test case WAS falsified, so
 		// Check must fail and must not go on generating fresh random cases
 		name := fmt.Sprintf("C09fl_%x", sc.Seed&0xffffff)
-		writeFailFile(name, "20260101000000-1", rapidVersion(), 1, []uint64{r.next(), r.next(), r.next()}, "planted")
+		writeFailFile(name, "20260101000000-1", rapidVersion(), 1, []uint64{r.next() >> 12, r.next(), r.next(), r.next()}, "planted") // bias word below 0.5: a plain (never "overflow") Uint64 draw, valid for every value word
 		calls := 0
 		cr := runBody(func(x *X) {
 			calls++
